@@ -149,6 +149,32 @@ claim("C39", "e5_hydrosim",
   E5NOTE + " With min < max the payloads of collect_quorum_with_response are legitimately batching-dependent; only what the property states is compared.",
   "DESIGN.md §5 C39, §13")
 
+E3NOTE = 'Trusted: the reference interpreter (independent of dfir code; validated against 34 documentation examples before every run, a contradiction is exit 2), the program generator and the closure library shared by compiled closures and interpreter. Sampled programs and schedules, nothing exhaustive; one item type (u8,i16); I/O, wall-clock, resolve_futures*, state/lattice_*, join_fused* operators are not generated; order compared only where DFIR documents it (Seq/Bag/KeySorted tags); external wake-ups during a tick belong to C27.'
+claim('C21', "e3_ticksim",
+  "deterministic simulation of rustc-compiled, seeded-generated DFIR programs under seeded arrival schedules (which items of which external input arrived before which tick, empty ticks, bursts, run_tick_sync per tick vs run_available_sync) with per-tick, per-sink comparison against an independent reference interpreter; workload: " + "3-14 operators over the operator catalogue with every legal 'tick/'static combination per input, 1-3 external inputs, 1-3 sinks",
+  "Seeded exploration over generated programs x arrival schedules; the generated binary is itself a simcore runner engine (each compiled program is a scenario), so violations are minimised decision traces carrying the program AST and are replayed in a fresh process (the host rebuilds a single-program crate from the replay file).",
+  E3NOTE, "DESIGN.md §5 C21, Appendix A, §13")
+claim('C22', "e3_ticksim",
+  "deterministic simulation of rustc-compiled, seeded-generated DFIR programs under seeded arrival schedules (which items of which external input arrived before which tick, empty ticks, bursts, run_tick_sync per tick vs run_available_sync) with per-tick, per-sink comparison against an independent reference interpreter; workload: " + 'each program plus 3-4 semantics-preserving shape variants (identity, map(|x| x), single-input union, single-output tee, union with null(), tee leg to null(), shuffled statements) compiled into one binary and driven by the same recorded schedule; variants must agree pairwise and with the interpreter; the all-compile-or-none clause is checked through dfir_lang as a library (plus a small rustc-level compile-agreement leg)',
+  "Seeded exploration over generated programs x arrival schedules; the generated binary is itself a simcore runner engine (each compiled program is a scenario), so violations are minimised decision traces carrying the program AST and are replayed in a fresh process (the host rebuilds a single-program crate from the replay file).",
+  E3NOTE, "DESIGN.md §5 C22, Appendix A, §13")
+claim('C23', "e3_ticksim",
+  "deterministic simulation of rustc-compiled, seeded-generated DFIR programs under seeded arrival schedules (which items of which external input arrived before which tick, empty ticks, bursts, run_tick_sync per tick vs run_available_sync) with per-tick, per-sink comparison against an independent reference interpreter; workload: " + 'a blocking consumer (negative side, accumulator, sort, persisted replay, singleton reference) fed by a random same-tick pipeline of depth 1-6 of maps, filters, unions, tees and nested blocking operators',
+  "Seeded exploration over generated programs x arrival schedules; the generated binary is itself a simcore runner engine (each compiled program is a scenario), so violations are minimised decision traces carrying the program AST and are replayed in a fresh process (the host rebuilds a single-program crate from the replay file).",
+  E3NOTE, "DESIGN.md §5 C23, Appendix A, §13")
+claim('C24', "e3_ticksim",
+  "deterministic simulation of rustc-compiled, seeded-generated DFIR programs under seeded arrival schedules (which items of which external input arrived before which tick, empty ticks, bursts, run_tick_sync per tick vs run_available_sync) with per-tick, per-sink comparison against an independent reference interpreter; workload: " + 'chains of defer_tick / defer_tick_lazy mixed with stateful operators and decaying feedback cycles; current_tick observed in sinks; the tick count of run_available_sync predicted exactly by the interpreter',
+  "Seeded exploration over generated programs x arrival schedules; the generated binary is itself a simcore runner engine (each compiled program is a scenario), so violations are minimised decision traces carrying the program AST and are replayed in a fresh process (the host rebuilds a single-program crate from the replay file).",
+  E3NOTE, "DESIGN.md §5 C24, Appendix A, §13")
+claim('C25', "e3_ticksim",
+  "deterministic simulation of rustc-compiled, seeded-generated DFIR programs under seeded arrival schedules (which items of which external input arrived before which tick, empty ticks, bursts, run_tick_sync per tick vs run_available_sync) with per-tick, per-sink comparison against an independent reference interpreter; workload: " + "fold->singleton / reduce->optional / handoff states with 2-4 access groups of #{g} [mut] name closures plus plain #name readers; each closure logs (group, item, value seen); one recorded known finding (reference holder sharing a subgraph with the handoff's pipe consumer) is printed as KNOWN-FINDING",
+  "Seeded exploration over generated programs x arrival schedules; the generated binary is itself a simcore runner engine (each compiled program is a scenario), so violations are minimised decision traces carrying the program AST and are replayed in a fresh process (the host rebuilds a single-program crate from the replay file).",
+  E3NOTE, "DESIGN.md §5 C25, Appendix A, §13")
+claim('C26', "e3_ticksim",
+  "deterministic simulation of rustc-compiled, seeded-generated DFIR programs under seeded arrival schedules (which items of which external input arrived before which tick, empty ticks, bursts, run_tick_sync per tick vs run_available_sync) with per-tick, per-sink comparison against an independent reference interpreter; workload: " + 'six parametrised loop-block templates (root-level loop gating on batch(), nested loops with defer_tick feedback, all_iterations/batch_lazy windowing, lazy vs non-lazy entries); per-tick outputs compared as multisets because batch() may split its input over iterations; livelock watchdog',
+  "Seeded exploration over generated programs x arrival schedules; the generated binary is itself a simcore runner engine (each compiled program is a scenario), so violations are minimised decision traces carrying the program AST and are replayed in a fresh process (the host rebuilds a single-program crate from the replay file).",
+  E3NOTE, "DESIGN.md §5 C26, Appendix A, §13")
+
 NOT_BUILT = {}  # pid -> reason while its check is not built yet
 
 ALL = ["C%02d" % i for i in range(1, 43)]
@@ -192,6 +218,7 @@ def main():
       "e5_hydrosim": "the repository's own deterministic simulator driven by my seeded decision stream: hook-level DynDriver and end-to-end fuzz_repro(bytes) over compiled dylibs",
       "e7_seedsim": "process-level simulator of hash-seed / address-space nondeterminism around the DFIR and Hydro compile pipelines (LD_PRELOAD getrandom seam)",
       "e6_gossip": "discrete-event simulator of replicated lattice state over a faulty network (drop, duplicate, reorder, partition, crash/restart)",
+      "e3_ticksim": "seeded DFIR program generator + reference interpreter; generated programs are compiled by rustc into a simcore runner binary and driven under simulated per-tick arrival schedules",
       "e1_sink": "poll-level deterministic simulator for sinktools adaptors and MergeSource",
       "e1_push": "poll-level deterministic simulator for dfir_pipes push combinators",
       "e1_pollsim": "poll-level deterministic simulator: scripted Pending/Ready/wake schedules around real dfir_pipes/sinktools/MergeSource/unsync-mpsc code",
